@@ -205,7 +205,17 @@ pub struct FloatCase {
 
 fn float_strategy() -> impl Strategy<Value = FloatCase> {
     let f = || prop_oneof![3 => -1.0e4f32..1.0e4, 2 => (-100i32..100).prop_map(|v| v as f32), 1 => prop::sample::select(vec![0.0f32, 1.0, -1.0, 1.0e30, -1.0e30, 1.0e-30, 16_777_216.0]), 1 => any::<f32>().prop_filter("finite", |v| v.is_finite() && v.abs() < 1e37)];
-    let d = || prop_oneof![3 => -1.0e6f64..1.0e6, 1 => prop::sample::select(vec![0.0f64, 1.0, -1.0, 1e-10, 2.5e-10, 1.25e5, 6.77e5]), 2 => (-1000i32..1000).prop_map(|v| v as f64)];
+    // f64 endpoints: f32-representable values over the whole exponent range (tiny and huge
+    // magnitudes, narrow ranges), plus ordinary ones
+    let d = || {
+        prop_oneof![
+            3 => (-1.0e6f32..1.0e6).prop_map(|v| v as f64),
+            1 => prop::sample::select(vec![0.0f64, 1.0, -1.0, 1.25e5, 6.77e5]),
+            2 => (-1000i32..1000).prop_map(|v| v as f64),
+            3 => any::<f32>().prop_filter("finite", |v| v.is_finite() && v.abs() < 1e37 && (v.abs() > 1e-37 || *v == 0.0)).prop_map(|v| v as f64),
+            2 => (-120i32..=120, 1u32..(1 << 24)).prop_map(|(e, m)| m as f64 * 2f64.powi(e - 24)),
+        ]
+    };
     let i = || prop_oneof![2 => -1000i32..1000, 1 => -(1i32 << 24)..(1 << 24), 1 => Just(i32::MIN), 1 => Just(i32::MAX - 127)];
     (f(), f(), d(), d(), prop::collection::vec(x_strategy(), 6), [f(), f(), f(), f()], [f(), f(), f(), f()], [i(), i(), i(), i()], [i(), i(), i(), i()]).prop_map(|(a, b, a64, b64, mut xs, vec_a, vec_b, ivec_a, ivec_b)| {
         xs.sort_by(|p, q| p.partial_cmp(q).unwrap());
